@@ -278,6 +278,21 @@ def layer_keywords():
         yield ("K", (kw, "plabel"), skeleton(pm=kw), 1e-8)
 
 
+UNICODE_FORMS = ("e\u0301", "a\u0303b", "\u1112\u1161\u11ab", "\u212b", "\u2126", "\ufb01", "\u00e9", "e\u0323\u0302", "x\u0301\u0301", "\U0001f600\u200d",
+                 "I\u0307", "\u01c5", "\u00df", "\u1e9e", "A\u030a", "\u00c5")
+
+
+def layer_unicode_forms():
+    """labels and names that are not in Unicode normalisation form C / KC, that change under case folding, or that are canonically equivalent to
+    another entry of this list: the text is kept code point for code point"""
+    for u in UNICODE_FORMS:
+        yield ("A", (u, "ilabel1"), skeleton(l1=u), 1e-8)
+        yield ("A", (u, "plabel"), skeleton(pm=u), 1e-8)
+        yield ("A", (u, "name"), skeleton(iname=u), 1e-8)
+    for a, b in (("e\u0301", "\u00e9"), ("A\u030a", "\u00c5"), ("\u212b", "\u00c5"), ("I\u0307", "i\u0307")):
+        yield ("A", (a + "|" + b, "both"), skeleton(l1=a, l2=b, iname=a, pname=b), 1e-8)
+
+
 MUTATIONS = ("insert-interval", "insert-point", "delete-interval", "add-tier", "remove-tier", "rename-tier", "replace-tier")
 
 
@@ -389,6 +404,10 @@ def parts(tier):
         InputPart("resave-after-mutation", lambda: ((si, mi) for si in range(12 if quick else 40) for mi in range(len(MUTATIONS))), check_resave,
                   rule="save, open, mutate the SAME live textgrid (%d mutations), save again x 4 formats x includeBlankSpaces: the second file equals "
                        "what a freshly built textgrid with the same content writes" % len(MUTATIONS), bounds={}, chunk=2),
+        InputPart("labels-unicode-forms", layer_unicode_forms, check,
+                  rule="%d strings that are not in Unicode normalisation form C / KC (base letter + combining mark, conjoining jamo, ANGSTROM / OHM sign, "
+                       "ligatures), that change under case folding, and pairs that are canonically equivalent to each other, as labels and tier names: "
+                       "kept code point for code point; equivalent names stay two tiers" % len(UNICODE_FORMS), bounds={}, snippet=_snippet, chunk=2),
         InputPart("keywords", layer_keywords, check,
                   rule="the formats' own keywords (%d) as first/second interval label, point mark, interval-tier name, point-tier name; "
                        "failures of the content-sniffing text readers on these are matched against known_findings.json" % len(D.KEYWORDS),
